@@ -354,6 +354,9 @@ pub fn c04(opts: &Opts) -> Report {
 
 pub fn c05(opts: &Opts) -> Report {
     let mut rep = Report::new("C05");
+    if want(opts, "gates") {
+        crate::props::c14::c05_gates(&mut rep, opts);
+    }
     let mut dopt = dag_opts(opts);
     dopt.max_cap = 1;
     if want(opts, "mt") {
